@@ -279,7 +279,7 @@ theorem C06_sem_scopes_closed (deep : Bool) (run : List Stmt → Env → Str →
   cases evalEs M obj env args out with
   | mk res o =>
     cases res with
-    | error x => simp
+    | error x => simp only []; split <;> simp
     | ok vs =>
       cases hl : lookupFn M name with
       | some impl =>
